@@ -65,6 +65,32 @@ PolyDegree(el) ==
 Nested(el, fam) ==
   el \in {"lagrange1", "lagrange2", "lagrange3", "discontinuous0", "bernstein2"} \/ (el = "discontinuous1" /\ fam = "simplex")
 
+\* the part of the local space that is spanned by monomials: all monomials of total degree <= PolyDegree on every (affine or
+\* multilinear) cell; for the tensor-product families on hypercubes additionally all monomials of degree <= TensorDegree per
+\* variable on AXIS-PARALLEL cells (Q_k is not invariant under general affine maps).  Reproduce: interpolating any of these
+\* monomials returns it.  If the number of monomials equals the number of local dofs, Reproduce is equivalent to
+\* Dual (N_i(phi_j) = delta_ij) on such cells.
+\* PARAMETRIC non-conforming families (Cai-Douglas-Santos-Sheen-Ye: "parametric finite element space", element.hpp): the local space is
+\* the bilinear image of a reference space, so it contains P1 only on parallelograms; the harness offers the non-constant monomials
+\* only on axis-parallel cells (flag t = 1)
+ParametricNC == {"cdssy"}
+TensorDegree(el, fam) ==
+  IF fam # "hypercube" THEN 0
+  ELSE CASE el = "lagrange1" -> 1 [] el \in {"lagrange2", "bernstein2"} -> 2 [] el \in {"lagrange3", "hermite3", "bfs"} -> 3 [] OTHER -> 0
+RECURSIVE TupleSum(_, _)
+TupleSum(e, k) == IF k = 0 THEN 0 ELSE e[k] + TupleSum(e, k - 1)
+LocalMonomials(el, fam, dim) ==
+  LET k == PolyDegree(el)  kq == TensorDegree(el, fam)  m == IF kq > k THEN kq ELSE k
+      E == [1..dim -> 0..m]
+      tot == {e \in E : TupleSum(e, dim) <= k}
+      ten == {e \in E : TupleSum(e, dim) > k /\ \A a \in 1..dim : e[a] <= kq}
+  IN IF el \in ParametricNC
+     THEN [total |-> {e \in tot : TupleSum(e, dim) = 0}, tensor |-> {e \in tot : TupleSum(e, dim) > 0}]
+     ELSE [total |-> tot, tensor |-> ten]
+\* families whose node functionals are point evaluations at dyadic points of the cell (vertices, midpoints): on a mesh with dyadic
+\* coordinates the interpolant of a monomial is reproduced bit-exactly, so Reproduce and Continuous are compared with ==
+ExactInterp(el, fam) == el \in {"lagrange1", "lagrange2"} \/ (el = "discontinuous1" /\ fam = "simplex")
+
 \* ---- (b) local dof layout ----------------------------------------------------------------------------------------------
 RECURSIVE LayoutFrom(_, _, _, _, _, _)
 LayoutFrom(sig, fam, dim, d, k, m) ==
